@@ -72,10 +72,21 @@ def convert_expr(t):
     return t
 
 
+REJECTED = ["(1 + ", "(a + ) * 2", "(1; 2;)", "((((((((((", "((((((((((1 +", "[1, 2", "[[[[", "<<1, 2", "<<<1 =>", "do 1", "do do do",
+            "def = 3", "if then", "fn(", "1 +", "for x in", "x[", "f(1, ", "{", "'\\x", "0x", "<*a = ", "(((1)) + ((2)", "while do", "1 )", "]",
+            "def f(a, = 1) a", "\"abc\\", "(fn(x) (x", "[x for x in (", "((((((((((((((((((((((((((((((", "- - (", "not (not (", "1 is (", "a->(", "%s" % ("(" * 50)]
+
+
 def run_shard(spec, ctx):
     R = differ.RealRunner(secure=True, legacy=True)
     r = ctx.rng
     for i in range(spec["n"]):
+        if i % 3 == 1:
+            # scripts the parser rejects half way, between the checked ones: nothing of them may linger
+            for _ in range(4):
+                bad = r.choice(REJECTED)
+                R.run_text(bad)
+                ctx.count("rejected_scripts_between")
         family, prog = gen_program(r, i)
         canon = render.Renderer().program(prog)
         text0 = " ".join(canon)
@@ -90,10 +101,11 @@ def run_shard(spec, ctx):
             ctx.violation("C14:%s:canonical-escape-%s" % (family, base[1] or "hang"), text0[:600], {"src": text0})
             continue
         ctx.count("baseline_" + base[0])
-        modes = FIXED_MODES + ["random"] * 5
+        modes = FIXED_MODES + ["random"] * 5 + ["spaces"]
         for j, mode in enumerate(modes):
             styled = j >= 2
-            rd = render.Renderer(style=r, paren_p=0.12 if styled else 0.0, semi_p=0.4 if styled else 0.0)
+            # (the last rendering parenthesises nearly every expression)
+            rd = render.Renderer(style=r, paren_p=(0.7 if j == len(modes) - 1 else 0.12) if styled else 0.0, semi_p=0.4 if styled else 0.0)
             toks = rd.program(prog)
             spelled = j % 2 == 1 or mode == "random"
             if spelled:
